@@ -232,7 +232,7 @@ theorem environ_path_roundtrip (p : Str) (hp : '%' ∉ p) :
   cases q with
   | nil => rfl
   | cons c t =>
-    have hc : c ≠ '/' := by simpa using hhead
+    have hc : (c == '/') = false := by simpa using hhead
     simp [List.dropWhile, hc]
 
 example : requestPath (environPathInfo "/é/日本 x".toList) = some "/é/日本 x".toList := by decide
